@@ -33,6 +33,11 @@ type LocalRef struct {
 	Var   *types.Var
 }
 
+type DependsClause struct {
+	Param string
+	Funcs []string
+}
+
 type LoopContract struct {
 	Func    string
 	Ordinal int
@@ -56,6 +61,8 @@ type FuncContract struct {
 	IsInit   bool
 	Decr     *Clause
 	FreshResult bool // the (first) slice result is a freshly allocated backing array nobody else holds
+	DependsOnly  []DependsClause
+	OpaqueResult []string
 	ReplayVia   []string // public entry points through which a counterexample of this (internal) function is searched
 	OwnsLists   bool // assumption: lists found in the maps this function builds are exclusively owned by it
 	Line     int
@@ -170,7 +177,7 @@ func ParseContracts(fset *token.FileSet, files []*ast.File) *Contracts {
 					cur = fc
 				case "inv":
 					cs.InvExprs = append(cs.InvExprs, &Clause{Kind: "inv", Expr: expandSugar(rest), Raw: rest, Line: line, File: fname})
-				case "property", "old", "requires", "ensures", "modifies", "trusted", "pure", "inline", "invariant", "decreases", "fresh-result", "owns-lists", "replay-via":
+				case "property", "old", "requires", "ensures", "modifies", "trusted", "pure", "inline", "invariant", "decreases", "fresh-result", "owns-lists", "replay-via", "depends-only", "opaque-result":
 					if cur == nil {
 						errf("clause outside func")
 						continue
@@ -189,6 +196,21 @@ func ParseContracts(fset *token.FileSet, files []*ast.File) *Contracts {
 						cur.FreshResult = true
 					case "owns-lists":
 						cur.OwnsLists = true
+					case "opaque-result":
+						cur.OpaqueResult = append(cur.OpaqueResult, strings.Fields(rest)...)
+					case "depends-only":
+						parts := strings.SplitN(rest, ":", 2)
+						if len(parts) != 2 {
+							errf("depends-only PARAM : f, g")
+							continue
+						}
+						dc := DependsClause{Param: strings.TrimSpace(parts[0])}
+						for _, f := range strings.Split(parts[1], ",") {
+							if f = strings.TrimSpace(f); f != "" {
+								dc.Funcs = append(dc.Funcs, f)
+							}
+						}
+						cur.DependsOnly = append(cur.DependsOnly, dc)
 					case "replay-via":
 						for _, f := range strings.Split(rest, ",") {
 							if f = strings.TrimSpace(f); f != "" {
